@@ -55,12 +55,12 @@ type netNext struct {
 type netWorld struct {
 	lastDisc map[[2]int]time.Duration
 	appScore map[string]float64 // "node|peer" -> application score (net_score runs)
-	s      *sim
-	plan   *Plan
-	nodes  []*simNode
-	router []string
-	topics []string
-	gp     GossipSubParams
+	s        *sim
+	plan     *Plan
+	nodes    []*simNode
+	router   []string
+	topics   []string
+	gp       GossipSubParams
 
 	conn       map[[2]int]bool
 	fanoutOnly map[string]bool // "node|topic"
@@ -580,6 +580,56 @@ func (w *netWorld) exec(it Item) {
 		w.publish(w.idx(it.a(0)), w.topicName(it.a(1)), int(it.a(2)), it.a(3) != 0)
 	case "evh":
 		w.evhNew(w.idx(it.a(0)), w.topicName(it.a(1)))
+	case "evhrace":
+		// [i, topic, j] a handler is created on node i while its event loop is busy with another
+		// request; meanwhile neighbour j subscribes and its announcement reaches i's inbox. When
+		// the loop resumes it finds both waiting (the seeded select decides which comes first).
+		i, t, j := w.idx(it.a(0)), w.topicName(it.a(1)), w.idx(it.a(2))
+		if i == j || !w.connected(i, j) {
+			w.evhNew(i, t)
+			return
+		}
+		n := w.nodes[i]
+		s.probe("c18_handler_created_while_loop_busy")
+		// the topic handle exists before the loop gets busy (Join needs the loop)
+		var tp *Topic
+		s.do(fmt.Sprintf("Join N%d %s", i, t), func() any {
+			n.topicOpts = w.topicOpts(i)
+			x, err := n.topic(t)
+			if err != nil {
+				return err
+			}
+			tp = x
+			return nil
+		})
+		if tp == nil {
+			return
+		}
+		w.armLoopPark = true
+		s.spawn(fmt.Sprintf("GetTopics N%d (keeps the loop busy)", i), func() any { return len(n.ps.GetTopics()) })
+		s.settle()
+		w.armLoopPark = false
+		e := &netEvh{id: len(w.evhs), node: i, topic: t, created: s.now()}
+		c := s.spawn(fmt.Sprintf("EventHandler N%d %s", i, t), func() any {
+			h, err := tp.EventHandler()
+			if err != nil {
+				return err
+			}
+			e.h = h
+			return nil
+		})
+		s.settle()
+		w.exec(Item{Op: "sub", A: []int64{int64(j), it.a(1), 0, 0}})
+		s.advance(50 * time.Millisecond)
+		for _, g := range s.parkedGates() {
+			if strings.HasPrefix(g.id, "net-loop-request") {
+				s.release(g, 0)
+			}
+		}
+		s.settle()
+		if c.isDone(s) && e.h != nil {
+			w.evhs = append(w.evhs, e)
+		}
 	case "evnext":
 		w.evhNext(int(it.a(0)))
 	case "evnextcancel":
